@@ -375,7 +375,7 @@ ThreadDone(ev) ==
 
 \* an OS request was refused while thread t was (possibly) inside a call
 OsRefused == osfail' = [x \in DOMAIN osfail |-> <<TRUE, osfail[x][2]>>]
-OsMapped == osfail' = [x \in DOMAIN osfail |-> <<osfail[x][1], TRUE>>]
+OsMapped(t) == osfail' = [x \in DOMAIN osfail |-> IF x = t THEN <<osfail[x][1], TRUE>> ELSE osfail[x]]
 
 \* C08: a producer/consumer run with a bounded number of live blocks runs in bounded memory: the heap's page-area count
 \* reached in the second half of the run does not exceed what the first half (after a warm-up eighth) already reached (+2 pages).
@@ -389,6 +389,15 @@ Round(ev) ==
      IN /\ pcm' = IF ev.k = 1 THEN <<0, 0>> ELSE <<m1, m2>>
         /\ (ev.k = ev.n => GD("NoBlowUp", <<m1, m2>>, m2 <= m1 + 2))
   /\ UNCHANGED <<live, heaps, dflt, backing, flux, arenas, osfail, cfg>>
+
+\* C14: after everything has been freed (and collected) the arena can again be allocated completely: no arena block is still
+\* reserved unless it holds a page area of an existing heap, and a refill with one-block objects obtains every other block.
+SeqSet(q) == {q[i] : i \in 1..Len(q)}
+Refill(ev) ==
+  /\ step' = step + 1
+  /\ GD("NothingReservedBehind", SeqSet(ev.inuse) \ SeqSet(ev.areas), SeqSet(ev.inuse) \subseteq SeqSet(ev.areas))
+  /\ GD("RefillComplete", <<ev.got, ev.blocks, Len(ev.inuse)>>, ev.got = ev.blocks - Cardinality(SeqSet(ev.inuse)))
+  /\ UNCHANGED <<live, heaps, dflt, backing, flux, arenas, osfail, cfg, pcm>>
 
 \* ---------------------------------------------------------------- state invariants (checked by TLC in MC and on every trace state)
 LiveDisjoint == \A b1, b2 \in LiveIds : b1 # b2 => (DisjointR(live[b1].a, live[b1].e, live[b2].a, live[b2].e) /\ live[b1].a # live[b2].a)
